@@ -26,6 +26,7 @@ import (
 	"github.com/gr33nbl00d/caddy-revocation-validator/crl/crlstore"
 	"github.com/gr33nbl00d/caddy-revocation-validator/ocsp"
 
+	"verif/h/rt/vleveldb"
 	"verif/h/rt/vsched"
 	"verif/h/world"
 )
@@ -73,6 +74,9 @@ func FreshDir(tag string) string {
 func ResetGlobals() {
 	crl.VerifReset()
 	ocsp.VerifReset()
+	// databases a previous world did not close (histories cut short, injected faults): release them, otherwise every
+	// one keeps its write buffers for the rest of the process
+	vleveldb.ReapOpen()
 }
 
 // CW is a CRL world: scripted origin + one CRLRevocationChecker.
